@@ -160,6 +160,8 @@ def main():
 
     results = run_deductive(prop, a.tier, a.jobs)
     violations, undecided, errors, known_hits = [], [], [], []
+    replayed_per_harness, not_replayed = {}, []
+    REPLAY_CAP = 12
     out_of_reach = []
     xfails = []
     all_obs = []
@@ -209,7 +211,14 @@ def main():
                "kind": ob.get("kind", "input"), "solver": "z3 (exact bounded semantics, folds unrolled)"}
         json.dump(rec, open(path, "w"), indent=1, default=str)
         kf = match_known(known, pid, ob)
+        hkey = ob["harness"]
+        replayed_per_harness[hkey] = replayed_per_harness.get(hkey, 0)
+        if ob.get("witness") and "concretise_error" not in (ob.get("witness") or {}) and replayed_per_harness[hkey] >= REPLAY_CAP:
+            # enough counter-models of this harness have been replayed: the rest are recorded, not replayed
+            not_replayed.append(ob["name"])
+            continue
         if ob.get("witness") and "concretise_error" not in (ob.get("witness") or {}):
+            replayed_per_harness[hkey] += 1
             p = subprocess.run([sys.executable, "-W", "ignore", os.path.abspath(__file__), pid, "--replay", path], capture_output=True,
                                text=True, timeout=600)
             try:
@@ -348,6 +357,7 @@ def main():
                          for k in ("regions", "premise_queries", "facts", "analyses")},
         "not_proved": [{"name": o["name"], "status": o["status"], "reason": o.get("reason"), "n": o.get("n")}
                        for o in all_obs if o["status"] != "PROVED"],
+        "refuted_not_replayed_beyond_cap": not_replayed[:50],
         "out_of_reach": [{"name": o["name"], "reason": o.get("reason")} for o in out_of_reach],
         "known_findings_hit": [{"finding": kf["id"], "obligation": ob["name"]} for kf, ob in known_hits],
         "samples": [o["name"] + " : " + o["status"] + " by " + str(o.get("backend")) for o in all_obs[:12]],
